@@ -493,3 +493,34 @@ def write_evidence(module, prop, tier, seed, merged, n_viol, wall, n_regress, n_
     with open(path, 'w', encoding='utf-8') as f:
         json.dump(doc, f, indent=1, sort_keys=True, default=str)
         f.write('\n')
+
+
+def atheris_task(ctx, prop, runs, seed):
+    """Thorough-tier deepening: drive the check body through atheris (coverage-guided); optional, never deciding."""
+    import shutil
+    import subprocess
+    import tempfile
+    if not os.path.isdir(os.path.join(DEPS, 'atheris')):
+        ctx.count('atheris_unavailable', 1)
+        return
+    base = os.path.join(VERIF, '.work')
+    os.makedirs(base, exist_ok=True)
+    work = tempfile.mkdtemp(prefix='atheris-', dir=base)
+    try:
+        replay, stats = os.path.join(work, 'replay.json'), os.path.join(work, 'stats.json')
+        env = dict(os.environ, VERIF_REPO=REPO, PYTHONHASHSEED='0', VERIF_SEED=str(ctx.seed))
+        p = subprocess.run([sys.executable, os.path.join(VERIF, 'vlib', 'fuzz_target.py'), prop, replay, stats,
+                            f'-runs={runs}', f'-seed={seed}', '-max_len=2048', '-len_control=0', '-timeout=600'],
+                           cwd=work, env=env, capture_output=True, text=True)
+        if os.path.exists(stats):
+            st = json.load(open(stats))
+            ctx.evaluations += st['evaluations']
+            ctx.nontrivial.update(st['nontrivial'])
+            ctx.count('atheris_executions', st['executions'])
+        if os.path.exists(replay):
+            v = json.load(open(replay))
+            ctx.violations.append({'site': 'atheris/' + v['site'], 'case': v['case'], 'message': v['message']})
+        elif p.returncode != 0:
+            raise HarnessError(f'atheris target failed rc={p.returncode}: {p.stderr[-1500:]}')
+    finally:
+        shutil.rmtree(work, ignore_errors=True)
